@@ -69,6 +69,18 @@ M = [
      "  waiter_base* item = pendingQueue_.pop_front();\n  item->resume_(item);",
      "  waiter_base* item = pendingQueue_.pop_front();\n  waiter_base* second = pendingQueue_.empty() ? nullptr : pendingQueue_.pop_front();\n  item->resume_(item);\n  if (second) second->resume_(second);",
      "v1 mutex: unlock() resumes two waiters"),
+    ("m24", "C16", "source/async_manual_reset_event_v1.cpp",
+     "  while (op != nullptr) {\n    std::exchange(op, op->next_)->set_value();\n  }",
+     "  if (op != nullptr) {\n    std::exchange(op, op->next_)->set_value();\n  }",
+     "v1 event: set() resumes only the first waiter"),
+    ("m25", "C16", "source/atomic_intrusive_list.cpp",
+     "  second->self.store(&head_, std::memory_order_release);\n  first->self.store(nullptr, std::memory_order_relaxed);\n\n  unlock(head_, rest_val);\n  unlock(first->rest, 0);\n  return first;",
+     "  second->self.store(&head_, std::memory_order_release);\n\n  unlock(head_, rest_val);\n  unlock(first->rest, 0);\n  return first;",
+     "atomic_intrusive_list::pop_front forgets to clear the popped node's self link"),
+    ("m26", "C16", "source/async_manual_reset_event_v2.cpp",
+     "  while (auto* w = local.pop_front()) {\n    w->resume_(w);\n  }",
+     "  if (auto* w = local.pop_front()) {\n    w->resume_(w);\n  }",
+     "v2 event: set() resumes only the first drained waiter"),
 ]
 
 
